@@ -2,7 +2,7 @@
 import json
 import numpy as np
 
-from harness.proj import to_rat, rat_close
+from harness.proj import to_rat, rat_close, relayout
 from harness.core import Machinery
 
 LEVEL = "model_checking"
@@ -26,6 +26,8 @@ def _check_case(ctx, metrics, c, variant):
         o2 = np.concatenate([o2[:1], [np.nan], o2[1:]])
         e2 = np.vstack([e2[:1], e2[:1] * 0 + 77.0, e2[1:]])
     e2 = np.ascontiguousarray(e2)
+    if variant.get("layout"):
+        o2, e2 = relayout(o2, variant["layout"]), relayout(e2, variant["layout"] // 5)
     o0, e0 = o2.copy(), e2.copy()
     case = {"obs": c["obs"], "ens": c["ens"], "variant": variant}
     try:
@@ -95,7 +97,8 @@ def spec_to_code(ctx, metrics, cfg):
         base = {"shift": 0, "scale": 1.0, "revmem": False, "revfc": False, "nanrow": False}
         _check_case(ctx, metrics, c, base)
         var = {"shift": [0, -5, 100][h % 3], "scale": [1.0, 0.5, 8.0][(h // 3) % 3],
-               "revmem": bool((h // 9) % 2), "revfc": bool((h // 18) % 2), "nanrow": bool((h // 36) % 3 == 0)}
+               "revmem": bool((h // 9) % 2), "revfc": bool((h // 18) % 2), "nanrow": bool((h // 36) % 3 == 0),
+               "layout": (h // 108) % 25}
         _check_case(ctx, metrics, c, var)
         ties = any(len(set(e)) < len(e) for e in c["ens"]) or any(o in e for o, e in zip(c["obs"], c["ens"]))
         ctx.count({"o": c["obs"], "e": c["ens"]}, ties)
